@@ -18,6 +18,8 @@ import TbbVerif.Proofs.C08Q
 import TbbVerif.Proofs.C08QRw
 import TbbVerif.Proofs.C08SMx
 import TbbVerif.Proofs.C08SRwF
+import TbbVerif.Proofs.C08R
+import TbbVerif.Proofs.C08N.Thm
 import TbbVerif.Generated.C08
 
 namespace TbbVerif.C08
@@ -588,5 +590,222 @@ theorem rw_orders_publish :
     (∀ e ∈ Generated.C08.orders, e.2.2.2.2 = 2 →
         Generated.C08.orders.any (fun a => a.1 == e.1 && a.2.1 == e.2.1 && a.2.2.2.2 == 1) = true) ∧
     Generated.C08.orders ≠ [] := by decide
+
+/-! ## speculative_spin_rw_mutex = rtm_rw_mutex (Model/C08R.lean `Rtm`): the write_flag protocol of the real writers and the
+read-set discipline of the (abstract) hardware transactions.  Any number of threads, every schedule, including spontaneous aborts
+(odd schedule entries) and every choice of how often each call speculates before it takes the real path (`spec` counters). -/
+
+/-- **A real writer keeps write_flag raised**: from the return of its acquire / try_acquire / upgrade to its release / downgrade call
+(`held = 2`) `write_flag` is true — the only word the transacting readers subscribe to. -/
+theorem rtm_rw_real_writer_flag (progs : List (List Rtm.Op)) (sched : List Nat) (k : Nat) (st : Rtm.St)
+    (hst : st = (Rtm.sys progs).run sched) :
+    (st.ths k).held = 2 → st.wflag = true := by
+  intro hh
+  have h : Rtm.RInv st := by rw [hst]; exact Rtm.rinv_reachable progs sched
+  have hkl : k < st.rw.ths.length := by
+    apply Classical.byContradiction; intro hc
+    have := (h.out k (by omega)).2.2.1; omega
+  have hk : st.rw.ths[k]? = some st.rw.ths[k] := by simp [hkl]
+  exact h.flg k ((h.rel k _ hk).2.1 hh)
+
+/-- **No speculative reader together with a real writer**: while a thread holds the lock as a real writer no transaction of a
+transacting reader is open (an open one would still be able to commit): its read set contains `write_flag`, read as false and
+not written since, or `m_state`, read as 0 and not written since. -/
+theorem rtm_rw_no_speculative_reader_with_real_writer (progs : List (List Rtm.Op)) (sched : List Nat) (a b : Nat) (st : Rtm.St)
+    (hst : st = (Rtm.sys progs).run sched) :
+    (st.ths a).held = 2 → ¬ ((st.ths b).intx = true ∧ (st.ths b).txm = 1) := by
+  intro ha hb
+  have h : Rtm.RInv st := by rw [hst]; exact Rtm.rinv_reachable progs sched
+  have hfl := rtm_rw_real_writer_flag progs sched a st hst ha
+  have hw := Rtm.word_ne_zero_of_held _ h a (by omega)
+  have hbl : b < st.rw.ths.length := by
+    apply Classical.byContradiction; intro hc
+    have := (h.out b (by omega)).2.1; rw [hb.1] at this; cases this
+  have hk : st.rw.ths[b]? = some st.rw.ths[b] := by simp [hbl]
+  rcases (h.rel b _ hk).2.2.2.2.2.2.1 hb.2 with hs | hs
+  · have := h.subf b hb.1 hs; rw [hfl] at this; cases this
+  · exact hw (h.subw b hb.1 hs)
+
+/-- **No speculative writer together with a real holder**: while the transaction of a transacting writer is open no thread holds
+the lock for real (as reader or writer): `m_state` is in its read set, read as 0 and not written since. -/
+theorem rtm_rw_no_speculative_writer_with_real_holder (progs : List (List Rtm.Op)) (sched : List Nat) (a b : Nat) (st : Rtm.St)
+    (hst : st = (Rtm.sys progs).run sched) :
+    (st.ths b).intx = true → (st.ths b).txm = 2 → (st.ths a).held = 0 := by
+  intro hi hm
+  have h : Rtm.RInv st := by rw [hst]; exact Rtm.rinv_reachable progs sched
+  have hbl : b < st.rw.ths.length := by
+    apply Classical.byContradiction; intro hc
+    have := (h.out b (by omega)).2.1; rw [hi] at this; cases this
+  have hk : st.rw.ths[b]? = some st.rw.ths[b] := by simp [hbl]
+  have hs := (h.rel b _ hk).2.2.2.2.2.2.2.1 hm
+  have hz := h.subw b hi hs
+  apply Classical.byContradiction; intro hne
+  exact Rtm.word_ne_zero_of_held _ h a hne hz
+
+/-- **Real holders exclude each other through the underlying spin_rw_mutex**: a real writer is the only real holder, and every
+speculative hold is inside an open transaction (so the two theorems above cover every speculative holder). -/
+theorem rtm_rw_real_excl (progs : List (List Rtm.Op)) (sched : List Nat) (a b : Nat) (st : Rtm.St)
+    (hst : st = (Rtm.sys progs).run sched) :
+    ((st.ths a).held = 2 → a ≠ b → (st.ths b).held = 0) ∧ ((st.ths b).txm ≠ 0 → (st.ths b).intx = true) := by
+  have h : Rtm.RInv st := by rw [hst]; exact Rtm.rinv_reachable progs sched
+  refine ⟨fun ha hab => ?_, fun hm => ?_⟩
+  · apply Classical.byContradiction; intro hb
+    have hlen : ∀ k, (st.ths k).held ≠ 0 → k < st.rw.ths.length := by
+      intro k hk; apply Classical.byContradiction; intro hc; exact hk (h.out k (Nat.le_of_not_lt hc)).2.2.1
+    have hal := hlen a (by omega)
+    have hbl := hlen b hb
+    have hka : st.rw.ths[a]? = some st.rw.ths[a] := by simp [hal]
+    have hkb : st.rw.ths[b]? = some st.rw.ths[b] := by simp [hbl]
+    have ra := h.rel a _ hka
+    have rb := h.rel b _ hkb
+    have hfa := ra.2.1 ha
+    have hfb : (st.ths b).fl = false := Rtm.fl_unique _ h a b _ hka (by
+      have := ra.1 hfa
+      have r7 := ra.2.2.2.2.2.2.2.2.2
+      rw [this.1] at r7; simpa [Rtm.restPhase, ha] using r7.1.2.2) (Ne.symm hab)
+    -- b holds for real but has not raised the flag: it is a reader; its inner phase is holdR or (downgrading) holdW
+    have hpa : (st.rw.ths[a]).phase = .holdW := by
+      have := ra.1 hfa
+      have r7 := ra.2.2.2.2.2.2.2.2.2
+      rw [this.1] at r7; simpa [Rtm.restPhase, ha] using r7.1.2.2
+    have hb1 : (st.ths b).held = 1 := by
+      rcases rb.2.2.1 with h0 | h1 | h2
+      · exact absurd h0 hb
+      · exact h1
+      · have := rb.2.1 h2; rw [hfb] at this; cases this
+    have hwfb := h.inner.hwf b _ hkb
+    have hpb : (st.rw.ths[b]).phase = .holdR ∨ (st.rw.ths[b]).phase = .holdW := by
+      have r7 := rb.2.2.2.2.2.2.2.2.2
+      rcases rb.2.2.2.2.2.1 hb1 with hp | hp
+      · rw [hp] at r7; left; simpa [Rtm.restPhase, hb1] using r7.1.2.2
+      · rw [hp] at r7; right
+        rcases r7.1 with hr | hr
+        · simpa [Op.pre] using hr.2.2
+        · have hw4 := hwfb.2.2.2
+          rw [hr.1] at hw4
+          simp only [WfOp] at hw4
+          simpa [Op.pre] using hr.2 hw4
+    have hw := h.inner.hw
+    have hx := h.inner.hx
+    have ca := cnt_pos_of_mem .holdW st.rw.ths a _ hka hpa
+    rcases hpb with hp | hp
+    · have cb := cnt_pos_of_mem .holdR st.rw.ths b _ hkb hp
+      have := hx (by omega); omega
+    · have := Rtm.cnt_ge_two st.rw.ths a b _ _ hab hka hkb hpa hp
+      split at hw <;> omega
+  · have hbl : b < st.rw.ths.length ∨ ¬ b < st.rw.ths.length := Classical.em _
+    cases hin : (st.ths b).intx with
+    | true => rfl
+    | false =>
+      rcases hbl with hbl | hbl
+      · have hk : st.rw.ths[b]? = some st.rw.ths[b] := by simp [hbl]
+        exact absurd ((h.rel b _ hk).2.2.2.1 hin).2.2 hm
+      · -- a thread that does not exist never moved
+        exact absurd (h.out b (by omega)).2.2.2 hm
+
+/-- non-vacuity: thread 0 holds speculatively as a reader (transaction open, write_flag in its read set); thread 1's real
+acquire for write takes the underlying lock and, by raising write_flag, aborts it: thread 0 is back at its acquire with no
+speculation attempt left, thread 1 is the real writer and write_flag is raised -/
+example :
+    let st := (Rtm.sys [[.acquire false 1, .release], [.acquire true 0, .release]]).run [0, 0, 0, 2, 2]
+    (st.ths 0).intx = true ∧ (st.ths 0).txm = 1 ∧ (st.ths 0).subF = true ∧ st.wflag = false ∧ st.rw.word.enc = 1 := by decide
+example :
+    let st := (Rtm.sys [[.acquire false 1, .release], [.acquire true 0, .release]]).run [0, 0, 0, 2, 2, 2]
+    (st.ths 0).intx = false ∧ (st.ths 0).ops = [.acquire false 0, .release] ∧ (st.ths 1).held = 2 ∧ st.wflag = true := by decide
+
+/-- the facts about the source text of rtm_rw_mutex.cpp / rtm_mutex.cpp that the model of the SPECULATIVE paths rests on (they cannot be
+replayed under the shim): regenerated from the current sources on every run -/
+theorem rtm_source_obligations :
+    (∀ e ∈ Generated.C08.rtmSrc, e.2 = true) ∧ Generated.C08.rtmSrc.length ≥ 8 := by decide
+
+/-! ## queuing_rw_mutex: the NODE PROTOCOL `QRwN` (Model/C08N.lean; one step per atomic access of src/tbb/queuing_rw_mutex.cpp)
+
+The theorems below hold for ANY number of threads and EVERY schedule, for programs made of acquire (read / write), try_acquire,
+release (writer; reader at the head; reader unlinking from the middle with the predecessor's internal lock and the tagged
+my_prev) and downgrade_to_reader.  They are `_partial` because of the explicit hypothesis `noUpgProg`: no program calls
+upgrade_to_writer.  The full statements are the same without that hypothesis; what is missing is the preservation of the
+invariant (Model/C08NInv.lean) by the ~40 program counters of upgrade_to_writer and by the UPGRADE_* branches of release /
+downgrade (tagged q_tail and my_next, a waiting upgrader in the middle of the queue); on those paths the model is tied to the code
+by the access-level replay and explored exhaustively for small configurations only. -/
+
+/-- the invariant of Model/C08NInv.lean holds in every reachable state -/
+theorem qrw_node_invariant (progs : List (List QRwN.Op)) (hn : QRwN.noUpgProg progs) (sched : List Tid) :
+    QRwN.Inv ((QRwN.sys progs).run sched) := QRwN.inv_reachable progs hn sched
+
+/-- **Exclusion at access level** (holders = the code's own return points): while a thread holds the lock as a writer — from the
+access by which its acquire / try_acquire returned to the first access of its release or downgrade — no other thread holds it,
+neither as writer nor as reader.
+Full statement `qrw_excl`: the same for all programs (with upgrade_to_writer). -/
+theorem qrw_excl_partial (progs : List (List QRwN.Op)) (hn : QRwN.noUpgProg progs) (sched : List Tid) (a b : Tid)
+    (st : QRwN.St) (hst : st = (QRwN.sys progs).run sched) : st.held a = 2 → a ≠ b → st.held b = 0 := by
+  subst hst; exact QRwN.excl_of_inv (QRwN.inv_reachable progs hn sched) a b
+
+/-- the code never dereferences a null or tagged pointer (`predecessor->…`, `next->…`) -/
+theorem qrw_no_bad_pointer_partial (progs : List (List QRwN.Op)) (hn : QRwN.noUpgProg progs) (sched : List Tid) :
+    ((QRwN.sys progs).run sched).bad = false := (QRwN.inv_reachable progs hn sched).bad
+
+/-- **try_acquire is truthful and never waits**: its load of q_tail answers false at once when the queue is not empty; otherwise
+five initialising stores (each advances) and the CAS on q_tail follow, and the call reports true exactly when that CAS found
+q_tail null — then the caller holds the lock in the requested mode (and by `qrw_excl_partial` legitimately so); when it reports
+false the CAS changed nothing (no node field, not q_tail, nobody's hold). -/
+theorem qrw_try_truthful (st : QRwN.St) (t : Tid) (op : QRwN.Op) (r : List QRwN.Op) (hops : (st.loc t).ops = op :: r) :
+    ((st.loc t).pc = .tCas →
+      (st.tail = 0 → (((QRwN.step st t).loc t).results = 1 :: (st.loc t).results ∧ (QRwN.step st t).tail = QRwN.P t ∧
+          (QRwN.step st t).held t = (if (st.loc t).w then 2 else 1) ∧ ((QRwN.step st t).loc t).ops = r)) ∧
+      (st.tail ≠ 0 → (((QRwN.step st t).loc t).results = 0 :: (st.loc t).results ∧ (QRwN.step st t).tail = st.tail ∧
+          (QRwN.step st t).held = st.held ∧ (QRwN.step st t).prev = st.prev ∧ (QRwN.step st t).next = st.next ∧
+          (QRwN.step st t).state = st.state ∧ (QRwN.step st t).going = st.going ∧ ((QRwN.step st t).loc t).ops = r))) ∧
+    ((st.loc t).pc = .tPrev → ((QRwN.step st t).loc t).pc = .tNext) ∧ ((st.loc t).pc = .tNext → ((QRwN.step st t).loc t).pc = .tGoing) ∧
+    ((st.loc t).pc = .tGoing → ((QRwN.step st t).loc t).pc = .tState) ∧ ((st.loc t).pc = .tState → ((QRwN.step st t).loc t).pc = .tIlock) ∧
+    ((st.loc t).pc = .tIlock → ((QRwN.step st t).loc t).pc = .tCas) := by
+  have hp := QRwN.try_progress st t op r hops
+  refine ⟨fun hpc => ?_, hp.1, hp.2.1, hp.2.2.1, hp.2.2.2.1, hp.2.2.2.2⟩
+  have := QRwN.tCas_step st t op r hops hpc
+  exact ⟨fun h0 => by have := this.1 h0; exact ⟨this.1, this.2.1, this.2.2.1, this.2.2.2.2⟩,
+         fun h0 => by have := this.2 h0; exact ⟨this.1, this.2.1, this.2.2.1, this.2.2.2.1, this.2.2.2.2.1, this.2.2.2.2.2.1, this.2.2.2.2.2.2.1, this.2.2.2.2.2.2.2.2.2⟩⟩
+
+/-- **Queue order = q_tail exchange order, no overtaking**: `pos` is the ticket a node drew at its q_tail exchange (or successful
+try-CAS).  If a queued request `b` is entitled to the lock (it found the queue empty, saw its predecessor ACTIVEREADER, or was sent
+my_going = 1 — every holder is entitled), then every request `a` that entered the queue earlier and is still in it is entitled too
+and both are readers: a blocking request never acquires before an earlier-queued conflicting request.
+Full statement `qrw_no_overtake`: the same for all programs. -/
+theorem qrw_no_overtake_partial (progs : List (List QRwN.Op)) (hn : QRwN.noUpgProg progs) (sched : List Tid) (a b : Tid)
+    (st : QRwN.St) (hst : st = (QRwN.sys progs).run sched) :
+    (st.held b ≠ 0 → st.gr b = true ∧ st.inq b = true) ∧
+    (st.inq a = true → st.inq b = true → st.pos a < st.pos b → st.gr b = true → st.gr a = true ∧ st.isW a = false ∧ st.isW b = false) := by
+  subst hst
+  have h := QRwN.inv_reachable progs hn sched
+  exact ⟨fun hb => ⟨(h.phase_4 b hb).1, h.phase_3 b (h.phase_4 b hb).1⟩, fun ha hb hlt hg => QRwN.no_overtake_of_inv h a b ha hb hlt hg⟩
+
+/-- **downgrade_to_reader never lets a writer in**: the first access of downgrade_to_reader turns the holding writer into a
+holding reader in one step (`QRwN.downgradeStart_step`), it stays one during the whole call, and so by exclusion no thread holds
+as a writer at any state of the call.
+Full statement `qrw_downgrade_atomic`: the same for all programs. -/
+theorem qrw_downgrade_atomic_partial (progs : List (List QRwN.Op)) (hn : QRwN.noUpgProg progs) (sched : List Tid) (t b : Tid)
+    (st : QRwN.St) (hst : st = (QRwN.sys progs).run sched) :
+    ((st.loc t).pc = .start → st.held t = 2 → (∃ r, (st.loc t).ops = .downgrade :: r) → (QRwN.step st t).held t = 1) ∧
+    ((st.loc t).pc.isD = true → st.held t = 1 ∧ st.held b ≠ 2) := by
+  subst hst
+  have h := QRwN.inv_reachable progs hn sched
+  refine ⟨fun hpc hh ⟨r, hops⟩ => QRwN.downgradeStart_step _ t r hops hpc hh, fun hd => ?_⟩
+  have h1 := h.phase_9 t hd
+  refine ⟨h1, fun hb => ?_⟩
+  by_cases e : b = t
+  · subst e; omega
+  · have := QRwN.excl_of_inv h b t hb e; omega
+
+/-- non-vacuity: three readers enter, the MIDDLE one releases first (unlinks itself with its predecessor's internal lock), then the
+others; a writer queued behind them gets the lock last; the hypothesis `noUpgProg` holds for these programs -/
+example : QRwN.noUpgProg [[.acquire false, .release], [.acquire false, .release], [.acquire false, .release], [.acquire true, .release]] := by decide
+
+set_option maxRecDepth 4000 in
+/-- non-vacuity: readers 2, 1, 0 queue up and all become active; the MIDDLE one (thread 1) releases: it takes its predecessor's
+internal lock (thread 2's, owner = node of thread 1), leaves the queue by exchanging its successor's my_prev — thread 0's ghost
+predecessor is now thread 2 — and is about to rewrite thread 2's my_next, while 0 and 2 still hold as readers -/
+example :
+    let st := (QRwN.sys [[.acquire false, .release], [.acquire false, .release], [.acquire false, .release]]).run
+      [2, 2, 2, 2, 2, 2, 2, 1, 1, 1, 1, 1, 1, 1, 1, 1, 1, 1, 1, 1, 1, 1, 1, 1, 1, 0, 0, 0, 0, 0, 0, 1, 0, 0, 0, 0, 1, 1, 1, 1, 0]
+    (st.loc 1).pc = .rrPN ∧ st.held 0 = 1 ∧ st.held 2 = 1 ∧ st.gpred 0 = QRwN.P 2 ∧ st.inq 1 = false ∧ st.iown 2 = QRwN.P 1 ∧
+    st.prev 0 = QRwN.P 2 := by decide
 
 end TbbVerif.C08
